@@ -73,6 +73,12 @@ def run(c, specdir, tla, cfg, tracedir, rejected_scns, mutators):
     for i, (name, _, _) in enumerate(picked):
         r = {"corruption": name, "intact_accepted": i not in ri, "corrupt_rejected": i in rc_}
         res.append(r)
+        if not r["intact_accepted"] and r["corrupt_rejected"] and getattr(c, "reject_total", 0) > 0:
+            # the run itself has rejections (the tree under test misbehaves), and the scenario picked
+            # for this corruption is one of the misbehaving ones: the corruption cannot be judged on
+            # it; the verdict of the run comes from the rejections, not from the self-test
+            r["skipped"] = "intact scenario is itself rejected in a run that has rejections"
+            continue
         if not (r["intact_accepted"] and r["corrupt_rejected"]):
             raise Inconclusive("binding self-test failed: %s" % json.dumps(r))
     for name, _ in todo:
